@@ -50,11 +50,29 @@ def enabled_units():
     return set(l.split('#')[0].strip() for l in open(p) if l.split('#')[0].strip())
 
 
+def serves_map():
+    p = os.path.join(VERIF, 'contracts', 'SERVES.txt')
+    m = {}
+    if os.path.exists(p):
+        for l in open(p):
+            l = l.split('#')[0].strip()
+            if ':' in l:
+                u, ps = l.split(':', 1)
+                m[u.strip()] = ps.split()
+    return m
+
+
 def units_for(prop, only_enabled=True):
     res = []
     en = enabled_units() if only_enabled else None
+    sm = serves_map()
     for tpl in sorted(glob.glob(os.path.join(VERIF, 'contracts', '*', 'unit.rs.tpl'))):
-        if en is not None and os.path.basename(os.path.dirname(tpl)) not in en:
+        uname = os.path.basename(os.path.dirname(tpl))
+        if en is not None and uname not in en:
+            continue
+        if uname in sm:
+            if prop in sm[uname]:
+                res.append(tpl)
             continue
         for line in open(tpl):
             if line.startswith('//@serves') and prop in line.split()[1:]:
